@@ -75,9 +75,9 @@ func runSeq(prop string) *ShardResult {
 	cfgs := []core.Config{{SegSize: 128}, {SegSize: 64}, {SegSize: 4096}}
 	switch prop {
 	case "C05":
-		sc.Depth, sc.RealDepth = 4, 2
+		sc.Depth, sc.RealDepth = 5, 2
 		if thorough {
-			sc.Depth, sc.RealDepth = 5, 3
+			sc.Depth, sc.RealDepth = 6, 3
 		}
 		sc.Alpha = func(m *core.Model) []core.Op {
 			ops := appendOps(m, [][]int{{4}, {12, 4}})
@@ -117,9 +117,9 @@ func runSeq(prop string) *ShardResult {
 			return append(ops, core.Op{K: "R"})
 		}
 	case "C20":
-		sc.Depth, sc.Metrics = 4, true
+		sc.Depth, sc.Metrics = 5, true
 		if thorough {
-			sc.Depth = 5
+			sc.Depth = 6
 		}
 		sc.Alpha = func(m *core.Model) []core.Op {
 			ops := appendOps(m, [][]int{{4}, {12, 4}})
@@ -154,6 +154,7 @@ func runSeq(prop string) *ShardResult {
 		for k, v := range st.Outcomes {
 			res.hist("final_ranges", k, int64(v))
 		}
+		res.Mins["depth_completed_"+cfgName(cfg)] = int64(st.DepthDone)
 		if st.DeadlineHit {
 			res.Exhaustive = false
 		}
